@@ -9,7 +9,7 @@
    it, successors indexed). Digests, media types and annotation strings are
    numbers standing injectively for byte strings (C19_Model.v header). *)
 From Coq Require Import Permutation.
-From NV Require Import Base Generated C19_Model C19_Proofs.
+From NV Require Import Base Generated C19_Model C19_Proofs C19_Audit.
 Open Scope list_scope.
 Open Scope N_scope.
 
@@ -144,10 +144,25 @@ Theorem C19_caps : capM = 4194304%Z /\ capB = 33554432%Z.
 Proof. exact caps_values. Qed.
 Print Assumptions C19_caps.
 
-(* the model satisfies the property oracle used on the implementation *)
-Theorem C19_model_meets_oracle : forall i, wf i = true -> spec_ok i (model i) = true.
+(* the model satisfies the property oracle used on the implementation. Since the
+   audit the oracle also judges "a signature whose push reported success is in
+   every later successful listing of its subject" at full strength; that clause
+   is false in the squat states (KNOWN finding, footprint 1: props/C19_Audit.v,
+   C19_pushed_but_not_listed_refuted, C19_model_meets_oracle_refuted), so the
+   statement carries the hypothesis that excludes exactly those:
+   [no_squat_history ops] = for every PushSignature of the history that reported
+   success, the digest of its manifest is neither the envelope's nor that of
+   "{}", and any content the store already held under it is this very manifest
+   stored as an image manifest. (Before the audit: the ledger oracle without
+   hypothesis — still proved, C19_Proofs.model_meets_ledger.) *)
+Theorem C19_model_meets_oracle : forall i, wf i = true -> no_squat_history (i_ops i) ->
+  spec_ok i (model i) = true.
 Proof. exact model_meets_oracle. Qed.
 Print Assumptions C19_model_meets_oracle.
+
+Theorem C19_model_meets_ledger_oracle : forall i, wf i = true -> orc [] (i_ops i) (model i) = true.
+Proof. exact model_meets_ledger. Qed.
+Print Assumptions C19_model_meets_ledger_oracle.
 
 (* ---------- the hypotheses are satisfiable: a concrete history ----------
    subject S = D 1 10 400; two signatures pushed for S and one for the
@@ -193,6 +208,10 @@ Example ex_roundtrip_hyps :
                = (st1', RPush 0 (D 8 20 500) (D 1 21 700) [(1,2); (5,6)]) /\
   lookup_dg (state_after []) 21 = None.
 Proof. eexists. split; vm_compute; reflexivity. Qed.
+
+(* the hypothesis of C19_model_meets_oracle holds for ex_ops (its pushes are fresh) *)
+Example ex_no_squat_history : no_squat_history ex_ops.
+Proof. apply fresh_no_squat_history. apply freshb_sound. vm_compute. reflexivity. Qed.
 
 (* an oversized referrer refuses the listing of its subject *)
 Example ex_oversize :
